@@ -239,3 +239,134 @@ def ev_ed_op(uni, gname, fn, r1, r2, note):
     out = f(tuple(r1)) if fn == "dbl" else f(tuple(r1), tuple(r2))
     return {"op": "ed_op", "grp": gname, "fn": fn, "r1": [numhex(v % Q) for v in r1], "r2": [numhex(v % Q) for v in r2],
             "out": [numhex(int(v) % Q) for v in out], "note": note, "w": 4}
+
+
+# --------------------------------------------------------------------------
+# C11 sampler, C14 derivations, C15 codecs, C17 transcript, C18 constants
+# --------------------------------------------------------------------------
+def _val(f):
+    try:
+        return {"t": "val", "v": f()}
+    except Exception as e:
+        return {"t": "err", "v": type(e).__name__}
+
+
+def ev_rr(start, stop, script):
+    sp = load_repo()
+    log = []
+    pos = [0]
+
+    def f(n):
+        got = script[pos[0]:pos[0] + n]
+        pos[0] += n
+        got = got + bytes(n - len(got))
+        log.append({"req": n, "got": hx(got)})
+        return got
+    out = _val(lambda: numhex(sp.util.unbiased_randrange(start, stop, f)))
+    return {"op": "rr", "start": numhex(start), "stop": numhex(stop), "ent": log, "out": out}
+
+
+def ev_rr_table(start, width, lo=0, hi=None):
+    sp = load_repo()
+    nbs = set()
+    res, nreq = [], []
+    nb_guess = max(1, (width.bit_length() + 7) // 8)
+    hi = 256 ** nb_guess if hi is None else hi
+    for r in range(lo, hi):
+        calls = []
+
+        def f(n):
+            calls.append(n)
+            return r.to_bytes(n, "big") if len(calls) == 1 and r < 256 ** n else bytes(n)
+        res.append(sp.util.unbiased_randrange(start, start + width, f))
+        nreq.append(len(calls))
+        nbs.update(calls)
+    nb = nbs.pop() if len(nbs) == 1 else -1
+    return {"op": "rr_table", "start": start, "width": width, "nb": nb, "lo": lo, "hi": hi, "res": res, "nreq": nreq,
+            "w": max(1, (hi - lo) // 60)}
+
+
+def ev_pw2s(uni, gname, pw):
+    G = uni.group(gname)
+    return {"op": "pw2s", "grp": gname, "pw": hx(pw), "out": _val(lambda: numhex(G.password_to_scalar(pw)))}
+
+
+def ev_arb(uni, gname, seed):
+    G = uni.group(gname)
+    try:
+        e = G.arbitrary_element(seed)
+        out = {"t": "elem", "enc": hx(e.to_bytes()), "cls": type(e).__name__}
+    except Exception as ex:
+        out = {"t": "err", "v": type(ex).__name__}
+    return {"op": "arb", "grp": gname, "seed": hx(seed), "out": out}
+
+
+def ev_n2b_table(maxval):
+    sp = load_repo()
+    u = sp.util
+    outs = [u.number_to_bytes(n, maxval) for n in range(maxval + 1)]
+    try:
+        u.number_to_bytes(maxval + 1, maxval)
+        over = ""
+    except Exception as e:
+        over = type(e).__name__
+    return {"op": "n2b_table", "maxval": maxval, "outs": [hx(o) for o in outs], "back": [u.bytes_to_number(o) for o in outs],
+            "over": over, "size_bytes": u.size_bytes(maxval), "size_bits": u.size_bits(maxval), "w": max(1, maxval // 50)}
+
+
+def ev_n2b(num, maxval):
+    sp = load_repo()
+    u = sp.util
+    try:
+        b = u.number_to_bytes(num, maxval)
+        return {"op": "n2b", "num": numhex(num), "maxval": numhex(maxval), "out": {"t": "val", "v": hx(b)},
+                "back": numhex(u.bytes_to_number(b))}
+    except Exception as e:
+        return {"op": "n2b", "num": numhex(num), "maxval": numhex(maxval), "out": {"t": "err", "v": type(e).__name__}, "back": ""}
+
+
+def ev_s_codec(uni, gname, k):
+    G = uni.group(gname)
+    enc = G.scalar_to_bytes(k)
+    return {"op": "s_codec", "grp": gname, "k": numhex(k), "enc": hx(enc), "dec": numhex(G.bytes_to_scalar(enc))}
+
+
+def ev_finalize(idA, idB, X, Y, K, pw):
+    sp = load_repo()
+    return {"op": "finalize", "idA": hx(idA), "idB": hx(idB), "X": hx(X), "Y": hx(Y), "K": hx(K), "pw": hx(pw),
+            "out": hx(sp.spake2.finalize_SPAKE2(idA, idB, X, Y, K, pw))}
+
+
+def ev_finalize_sym(idS, m1, m2, K, pw):
+    sp = load_repo()
+    f = sp.spake2.finalize_SPAKE2_symmetric
+    return {"op": "finalize_sym", "idS": hx(idS), "m1": hx(m1), "m2": hx(m2), "K": hx(K), "pw": hx(pw),
+            "out": hx(f(idS, m1, m2, K, pw)), "swapped": hx(f(idS, m2, m1, K, pw))}
+
+
+def ev_params_sound(uni, psname, gname):
+    sp = load_repo()
+    P = uni.paramset(psname)
+    d = sp.spake2.SPAKE2_A(b"pw").params
+    names = {id(sp.parameters.all.ParamsEd25519): "ParamsEd25519", id(sp.parameters.all.Params1024): "Params1024",
+             id(sp.parameters.all.Params2048): "Params2048", id(sp.parameters.all.Params3072): "Params3072"}
+    dflt = names.get(id(d), "?")
+    if sp.spake2.DefaultParams is not d or sp.SPAKE2_Symmetric(b"pw").params is not d or sp.SPAKE2_B(b"pw").params is not d:
+        dflt = "inconsistent"
+    G = P.group
+    return {"op": "params_sound", "group": gname, "live": uni.gdesc[gname],
+            "seeds": {"M": hx(P.M_str), "N": hx(P.N_str), "S": hx(P.S_str)},
+            "M": hx(P.M.to_bytes()), "N": hx(P.N.to_bytes()), "S": hx(P.S.to_bytes()), "base": hx(G.Base.to_bytes()),
+            "default": dflt, "w": 60}
+
+
+def ev_ctor_table(p, q):
+    sp = load_repo()
+    acc = []
+    for g in range(1, p):
+        try:
+            sp.groups.IntegerGroup(p=p, q=q, g=g)
+            acc.append(1)
+        except Exception:
+            acc.append(0)
+    return {"op": "ctor_table", "p": p, "q": q, "acc": acc}
